@@ -60,7 +60,7 @@ PROPERTIES["C05"] = {
                   "names over {Foo,foo,Bar,...} (case variants on purpose). CUE front end and references into unloaded packages are outside the claim.",
     "bounds": {"schemas": "2 packages, <=3 objects, main object T(1), names over a case-sensitive alphabet of 3-4, pass parameters symbolic over the same alphabets"},
     "runs": lambda ctx: [Run("compiler", ["./internal/ast/compiler"], COMPILER_HARNESS,
-                 ["VerifC05Rename", "VerifC05Prefix", "VerifC05Duplicate", "VerifC05Unspec", "VerifC05ReplaceReference", "VerifC05AllowedObjects", "VerifC05Sequence"],
+                 ["VerifC05Rename", "VerifC05Prefix", "VerifC05Duplicate", "VerifC05Unspec", "VerifC05ReplaceReference", "VerifC05AllowedObjects", "VerifC05Sequence", "VerifC05AfterUnionToStruct"],
                  "internal/ast/compiler", needs_leaf=True)]
              + [Run("chains", ["./internal/zzverif/hchains"], CHAINS_HARNESS,
                     ["VerifC05ChainGo", "VerifC05ChainJava", "VerifC05ChainPHP", "VerifC05ChainPython", "VerifC05ChainTypeScript",
@@ -120,13 +120,17 @@ PROPERTIES["C06"] = {
                   "VerifC06GoSpine", "VerifC06JavaSpine", "VerifC06PHPSpine", "VerifC06PythonSpine",
                   "VerifC06GoIntersection", "VerifC06JavaIntersection", "VerifC06PHPIntersection", "VerifC06PythonIntersection",
                   "VerifC06GoConstants", "VerifC06JavaConstants", "VerifC06PHPConstants", "VerifC06PythonConstants", "VerifC06TypeScriptConstants",
-                  "VerifC06GoStructUnion", "VerifC06JavaStructUnion", "VerifC06PHPStructUnion", "VerifC06PythonStructUnion"],
+                  "VerifC06GoStructUnion", "VerifC06JavaStructUnion", "VerifC06PHPStructUnion", "VerifC06PythonStructUnion",
+                  "VerifC06GoUnionTwice", "VerifC06JavaUnionTwice", "VerifC06PHPUnionTwice", "VerifC06PythonUnionTwice",
+                  "VerifC06GoIntersectionUnion", "VerifC06JavaIntersectionUnion"],
                  "internal/zzverif/hchains", test_pkg_name="hchains", needs_leaf=True,
                  quick_entries=["VerifC06Go", "VerifC06Java", "VerifC06PHP", "VerifC06Python", "VerifC06TypeScript",
                   "VerifC06GoSpine", "VerifC06JavaSpine", "VerifC06PHPSpine", "VerifC06PythonSpine",
                   "VerifC06GoIntersection", "VerifC06JavaIntersection", "VerifC06PHPIntersection", "VerifC06PythonIntersection",
                   "VerifC06GoConstants", "VerifC06JavaConstants", "VerifC06PHPConstants", "VerifC06PythonConstants", "VerifC06TypeScriptConstants",
-                  "VerifC06GoStructUnion", "VerifC06PythonStructUnion"])],
+                  "VerifC06GoStructUnion", "VerifC06PythonStructUnion",
+                  "VerifC06GoUnionTwice", "VerifC06JavaUnionTwice", "VerifC06PHPUnionTwice", "VerifC06PythonUnionTwice",
+                  "VerifC06GoIntersectionUnion", "VerifC06JavaIntersectionUnion"])],
 }
 
 
@@ -180,7 +184,7 @@ PROPERTIES["C04"] = {
              Run("jsonschema_jenny", ["./internal/jennies/jsonschema"], _h(("internal/jennies/jsonschema/zz_verif_c12.go", "harness/jjsonschema/zz_verif_c12.go")),
                  ["VerifC12GenerateSchema"], "internal/jennies/jsonschema", test_pkg_name="jsonschema", needs_leaf=True, panics="violation", judge="panic"),
              Run("hast", ["./internal/zzverif/hast"], HAST_HARNESS, ["VerifC16FromAST"], "internal/zzverif/hast", test_pkg_name="hast", panics="violation", judge="panic"),
-             Run("veneers", ["./internal/zzverif/hveneers"], VENEERS_HARNESS, ["VerifC17OptionRule", "VerifC17BuilderRule", "VerifC17MergeInto", "VerifC17OptionRulePair", "VerifC17ArityPair", "VerifC17RenameThenInitialize"],
+             Run("veneers", ["./internal/zzverif/hveneers"], VENEERS_HARNESS, ["VerifC17OptionRule", "VerifC17BuilderRule", "VerifC17MergeInto", "VerifC17OptionRulePair", "VerifC17ArityPair", "VerifC17RenameThenInitialize", "VerifC17SelectorsAfterBuilderRules"],
                  "internal/zzverif/hveneers", test_pkg_name="hveneers", needs_leaf=True, panics="violation", judge="panic")],
 }
 
@@ -230,7 +234,7 @@ PROPERTIES["C17"] = {
     "level_note": "Bounds: one package, builders Bar/Foo/foo, Foo with 2 fields over 7 kinds; one rule per run (rule sequences are outside the quick bound); "
                   "merge_into/compose/initialize/add_option/add_factory rules are not covered yet. Reference contracts: DESIGN.md appendix B.",
     "bounds": {"builders": "3 (derived by FromAST), Foo: 2 fields x 7 kinds", "rules": "11 option actions + 5 builder rules, one at a time, selector names symbolic incl. case variants and absent names"},
-    "runs": [Run("veneers", ["./internal/zzverif/hveneers"], VENEERS_HARNESS, ["VerifC17OptionRule", "VerifC17BuilderRule", "VerifC17MergeInto", "VerifC17OptionRulePair", "VerifC17ArityPair", "VerifC17RenameThenInitialize"],
+    "runs": [Run("veneers", ["./internal/zzverif/hveneers"], VENEERS_HARNESS, ["VerifC17OptionRule", "VerifC17BuilderRule", "VerifC17MergeInto", "VerifC17OptionRulePair", "VerifC17ArityPair", "VerifC17RenameThenInitialize", "VerifC17SelectorsAfterBuilderRules"],
                  "internal/zzverif/hveneers", test_pkg_name="hveneers", needs_leaf=True,
                  allow_unreached=["C17: merge_into lost the destination builder", "C17: merge_into dropped a source option"])],
 }
@@ -432,7 +436,7 @@ def _c13_prepare(tmp, tier):
 def _c13_runs(ctx):
     runs = []
     for pkg, entries in sorted(ctx["c13"].items()):
-        runs.append(_gen_run(ctx, "equals_" + pkg, pkg, [(pkg + "/zz_verif_c13_gen.go", os.path.join(ctx["c13h"], "zz_verif_c13_%s.go" % pkg))], entries))
+        runs.append(_gen_run(ctx, "equals_" + pkg, pkg, [(pkg + "/zz_verif_c13_gen.go", os.path.join(ctx["c13h"], "zz_verif_c13_%s.go" % pkg))], entries, panics="violation"))
     return runs
 
 PROPERTIES["C13"] = {
